@@ -3,15 +3,16 @@ package worker
 import (
 	"bytes"
 	"context"
-	"sync/atomic"
-	"time"
 	"encoding/json"
 	"fmt"
 	"io"
+	"os"
 	"reflect"
 	"regexp"
 	"runtime"
 	"strings"
+	"sync/atomic"
+	"time"
 
 	gojson "github.com/goccy/go-json"
 	"github.com/goccy/go-json/verifsim"
@@ -215,6 +216,10 @@ func makeCyclic(seed int64) interface{} {
 		return r
 	case 1:
 		m := map[string]interface{}{"a": 1}
+		if smallMaps {
+			// (scheduled plans: one entry, see asTasks)
+			m = map[string]interface{}{}
+		}
 		m["self"] = m
 		return m
 	default:
@@ -913,6 +918,16 @@ func execSessions(p *plan.Plan, res *plan.Result) {
 		cfg := verifsim.Config{Seed: p.Sched.Seed, Prob: p.Sched.Prob, MaxYields: p.Sched.MaxYields}
 		for _, pt := range p.Sched.Points {
 			cfg.Points = append(cfg.Points, verifsim.Point{At: pt.At, Site: pt.Site, Occ: pt.Occ, Task: pt.Task, To: pt.To})
+		}
+		if tf := os.Getenv("VERIF_TRACE"); tf != "" {
+			verifsim.EnableTrace(8 << 20)
+			defer func() {
+				var sb strings.Builder
+				for _, e := range verifsim.Trace() {
+					fmt.Fprintf(&sb, "%d %d\n", e>>32, uint32(e))
+				}
+				os.WriteFile(tf, []byte(sb.String()), 0o644)
+			}()
 		}
 		sr := verifsim.Run(cfg, fns)
 		res.Yields = sr.Yields
